@@ -539,7 +539,7 @@ def gen_scenario(r: Any) -> dict:
     for _ in range(m):
         t += r.choice([0, 250, 500, 1000, 1000, 2000, 3000])
         uid = r.choice(uids)
-        op = r.choices(['toggle', 'edit', 'delete', 'strip', 'pause', 'exit'], [6, 2, 3, 1, 2, 1])[0]
+        op = r.choices(['toggle', 'edit', 'delete', 'strip', 'pause', 'exit', 'force'], [6, 2, 3, 1, 2, 1, 1])[0]
         if op == 'toggle':
             acts.append({'t': t, 'op': 'toggle', 'uid': uid, 'id': r.choice(ids)})
         elif op == 'pause':
@@ -548,6 +548,12 @@ def gen_scenario(r: Any) -> dict:
         elif op == 'exit':
             acts.append({'t': t, 'op': 'exit'})
             break
+        elif op == 'force':
+            # forced removal while the daemons are being stopped: deletion requested, then somebody empties metadata.finalizers
+            # of the terminating object -> DELETED event WITH deletionTimestamp, and nothing more for this object
+            acts.append({'t': t, 'op': 'delete', 'uid': uid})
+            t += r.choice([0, 500, 500, 1500])
+            acts.append({'t': t, 'op': 'strip', 'uid': uid})
         elif op == 'strip':
             acts.append({'t': t, 'op': 'strip', 'uid': uid})
             if r.random() < 0.6:
@@ -604,6 +610,13 @@ def monitors(ctx: fw.Ctx, sc: dict, w: cw.World, report: Any = None) -> list[dic
     for e in log:
         if e['kind'] == 'proc_begin' and e['type'] == 'DELETED':
             orphaned.setdefault(e['uid'], e)
+
+    def orphan_info(i: dict, orph: dict | None, rs: set) -> dict:
+        """How the instance relates to the disappearance of its object (for the narrow signatures of F7 / F702)."""
+        if orph is None:
+            return {'orphaned_by': None}
+        return {'orphaned_by': _ev(orph), 'flagged': bool(rs & set(PRIMARY)),
+                'running_when_object_disappeared': sseq[i['ser']] < orph['seq'] < eseq[i['ser']]}
 
     def first_flag(i: dict) -> int | None:
         s = [t for (t, r) in i.get('sets', []) if r != ['DONE']]
@@ -725,18 +738,22 @@ def monitors(ctx: fw.Ctx, sc: dict, w: cw.World, report: Any = None) -> list[dic
         sq_until = nxt[0]['seq'] if nxt else INF
         for i in insts:
             if sseq[i['ser']] < sq_until < eseq[i['ser']] and t_until - max(tp, i['spawned']) >= 1250:
-                if not (reasons_at(i, sq_until if sq_until < INF else None) & set(PRIMARY)):      # asked to stop at all
+                rs = reasons_at(i, sq_until if sq_until < INF else None)
+                if 'OPERATOR_PAUSING' not in rs and 'DAEMON_ABANDONED' not in rs:      # neither reached by the pause nor given up
                     orph = orphaned.get(i['uid'])
-                    fail('the operator has been paused for more than a second but a running daemon/timer was not asked to stop',
-                         'orphan-not-stopped' if orph is not None and orph['seq'] < sq_until else 'not-stopped-on-pause',
-                         {'uid': i['uid'], 'id': i['id'], 'paused_at': tp, 'orphaned_by': _ev(orph)})
-    if getattr(w, 'exit_done', None) and w.killer_crash is None:
+                    is_orph = orph is not None and orph['seq'] < sq_until
+                    fail('the operator has been paused for more than a second but a running daemon/timer was not reached by the pause',
+                         'orphan-not-stopped' if is_orph else 'not-stopped-on-pause',
+                         {'uid': i['uid'], 'id': i['id'], 'paused_at': tp, **orphan_info(i, orph if is_orph else None, rs)})
+    exits = [e['seq'] for e in log if e['kind'] == 'act' and e.get('op') == 'exit']
+    if getattr(w, 'exit_done', None) and w.killer_crash is None and exits:
         for i in insts:
-            if i['ended'] is None and not (reasons_at(i) & set(PRIMARY)):
+            rs = reasons_at(i)
+            if i['ended'] is None and sseq[i['ser']] < exits[0] and 'OPERATOR_EXITING' not in rs and 'DAEMON_ABANDONED' not in rs:
                 orph = orphaned.get(i['uid'])
-                fail('the operator exited but a running daemon/timer was never asked to stop',
+                fail('the operator exited but a running daemon/timer was not reached by the exit (still running, not given up)',
                      'orphan-not-stopped' if orph is not None else 'not-stopped-on-exit',
-                     {'uid': i['uid'], 'id': i['id'], 'orphaned_by': _ev(orph)})
+                     {'uid': i['uid'], 'id': i['id'], **orphan_info(i, orph, rs)})
 
     # --- M4: stages in order and not early (every instance)
     for i in insts:
@@ -760,15 +777,24 @@ def monitors(ctx: fw.Ctx, sc: dict, w: cw.World, report: Any = None) -> list[dic
             if e['kind'] == 'set' and e['ser'] == i['ser'] and e['reason'] in (['DAEMON_SIGNALLED'], ['DAEMON_CANCELLED']) \
                     and not (reasons_at(i, e['seq'] - 1) & set(PRIMARY)):
                 fail('a stage of the termination was entered before the stop flag carried a reason', 'stage-before-flag', det)
-        # liveness of the deletion path (the world honours the returned delays exactly)
-        if tf is not None and to is not None and h['kind'] == 'daemon' and i['uid'] not in orphaned:
+        # liveness of the deletion path: cancellation when the backoff has elapsed, abandonment when the timeout has elapsed too,
+        # both measured from the stop flag (the world honours the delays returned by the operator exactly, as long as it can)
+        if tf is not None and to is not None and h['kind'] == 'daemon' and w.killer_crash is None:
             del_sets = [t for (t, r) in i.get('sets', []) if r == ['RESOURCE_DELETED']]
             if del_sets and del_sets[0] == tf:
+                orph = orphaned.get(i['uid'])
+                oi = orphan_info(i, orph, reasons_at(i))
                 due = tf + (bo or 0)
                 alive_then = i['ended'] is None or i['ended'] > due
-                if to > 0 and alive_then and t_end > due + 500 and w.killer_crash is None and not any(tc <= due for tc in i.get('cancels', [])):
-                    fail('deletion: the task was not cancelled when the backoff had elapsed', 'cancel-late', det,
+                if to > 0 and alive_then and t_end > due + 500 and not any(tc <= due for tc in i.get('cancels', [])):
+                    fail('deletion: the task was not cancelled when the backoff had elapsed', 'cancel-late', {**det, **oi},
                          observed={'flag': tf, 'cancels': i.get('cancels', []), 'ended': i['ended']}, expected={'cancel_at': due})
+                due2 = tf + (bo or 0) + to
+                alive2 = i['ended'] is None or i['ended'] > due2
+                ab = [e['t'] for e in log if e['kind'] == 'set' and e['ser'] == i['ser'] and e['reason'] == ['DAEMON_ABANDONED']]
+                if alive2 and t_end > due2 + 500 and not any(t <= due2 for t in ab):
+                    fail('deletion: the daemon still runs after backoff+timeout and was not given up (abandoned)', 'abandon-late',
+                         {**det, **oi}, observed={'flag': tf, 'abandoned': ab, 'ended': i['ended']}, expected={'abandon_at': due2})
     # --- M7: each stop_daemon of the killer is bounded by backoff+timeout
     kb = {e['seq']: e for e in log if e['kind'] == 'kstop_begin'}
     for e in log:
@@ -993,14 +1019,33 @@ def d_timer(ctx: fw.Ctx) -> list[fw.Case]:
 # F1 (idle-only timer busy loop, fixed by ba077d7) and F901 (daemon_killer dict iteration, fixed by c948bdc) are FIXED: a stall or a
 # killer crash is a VIOLATION again; their corpus witnesses are regression cases that must pass.
 def match_f7(f: dict) -> bool:
+    """F7: DELETED without deletionTimestamp — the daemon is not even flagged."""
     c = f['case']
     if f['sig'] in ('not-stopped-on-disappear', 'spawned-on-disappear'):
         ev = c.get('event') or {}
         return ev.get('type') == 'DELETED' and ev.get('deletionTimestamp') is False
     if f['sig'] == 'orphan-not-stopped':
         ev = c.get('orphaned_by') or {}
-        return ev.get('type') == 'DELETED' and ev.get('deletionTimestamp') is False
+        return ev.get('type') == 'DELETED' and ev.get('deletionTimestamp') is False and c.get('flagged') is False
     return False
+
+
+def match_f702(f: dict) -> bool:
+    """F702: the object of a RUNNING, already FLAGGED instance disappeared (DELETED delivered: forced removal): the rest of the
+    protocol for exactly that instance is lost — no cancellation after the backoff, no abandonment after the timeout, not
+    reached by pause/exit.  Anything else (early stages, wrong order, a non-orphan) is not matched."""
+    if f['sig'] not in ('cancel-late', 'abandon-late', 'orphan-not-stopped'):
+        return False
+    c = f['case']
+    ev = c.get('orphaned_by') or {}
+    if ev.get('type') != 'DELETED' or c.get('flagged') is not True or c.get('running_when_object_disappeared') is not True:
+        return False
+    if f['sig'] in ('cancel-late', 'abandon-late'):
+        # the missing stage was due only after the object had gone (before that the cycles still ran: a real violation)
+        exp = f.get('expected') or {}
+        due = exp.get('cancel_at', exp.get('abandon_at'))
+        return due is not None and due > ev['t']
+    return True
 
 
 # ----------------------------------------------------------------------------------------- run / replay
@@ -1021,7 +1066,7 @@ def nontrivial(w: cw.World) -> bool:
 
 
 def run(ctx: fw.Ctx) -> int:
-    ctx.matchers = {'F7': match_f7}
+    ctx.matchers = {'F7': match_f7, 'F702': match_f702}
     ctx.proofs()
     ok, logtxt = fw.build_models(['Model/Daemons.v'])
     if not ok:
@@ -1072,7 +1117,7 @@ def run(ctx: fw.Ctx) -> int:
 
 
 def replay(ctx: fw.Ctx, body: dict) -> bool:
-    ctx.matchers = {'F7': match_f7}
+    ctx.matchers = {'F7': match_f7, 'F702': match_f702}
     case = body.get('case') or {}
     sig = body.get('sig')
     if 'scenario' in case:
